@@ -40,8 +40,7 @@ AUDIT = "Ymq.Audit.C13"
 THEOREMS = ["Ymq.C13." + t for t in (
     "cursor_inv small_recovery table_recovery large_table_recovery recycled_clean listed_complete_inv "
     "listed_complete listed_complete_rehash no_panic no_panic_rehash cofactor_no_panic fbase_new_classes log_sum_bound "
-    "cofactor_spec accumulator_spec_partial accumulator_overflow_iff accumulator_overflow_witness "
-    "accumulator_no_overflow_partial smooths_threshold_spec").split()]
+    "cofactor_spec " + "accumulator_hits_spec class_loops_cover accumulator_spec_small accumulator_spec_partial accumulator_overflow_iff accumulator_overflow_witness accumulator_no_overflow_small accumulator_no_overflow_partial smooths_threshold_spec smooth_candidate_reported").split()]
 PROFILES = ["release", "chk"]
 TIMEOUT = 120.0
 HYPOTHESES = [
@@ -1255,9 +1254,10 @@ MODELLED = [
 ]
 UNMODELLED = [
     "the SIMD intrinsics of the threshold scan (wide::u8x16 max/compare) are modelled by their meaning (some byte of the 16-byte "
-    "chunk exceeds threshold2 - 1); accumulator_spec_partial / accumulator_no_overflow_partial: the bookkeeping that the class loops "
-    "visit every non-skipped cursor exactly once and that bucket entries are the registered hits is not proved (the closed form "
-    "blk[x] = sum of bitlen p over the non-skipped primes with a root at x is checked on the code by the independent oracle)",
+    "chunk exceeds threshold2 - 1); accumulator_spec_partial / accumulator_no_overflow_partial (general factor bases): it is not proved "
+    "that the bucket entries read back by sieve_block are exactly the hits registered by new/rehash for the block; the closed form is "
+    "proved for the primes below the block size (class_loops_cover, accumulator_spec_small, accumulator_no_overflow_small) and checked "
+    "on the code including the large primes by the independent oracle",
     "log_sum_bound gives the region where the u8 log accumulators cannot overflow (bitlen(value) + number "
     "of distinct prime divisors <= 256); beyond it the overflow is reachable (finding reported: 398-bit n, Algo::Qs, checked profile)",
     "Dividers::{modu16, modi64, divmod_uint} are modelled as %, / (property C08); fbase::try_factor64 (Pollard rho / ECM) is a parameter "
